@@ -526,7 +526,8 @@ def cmp_comp(bad, name, comp, amt, vol, known, when):
         want = {c: a / vol[j] for c, a in amt[j].items() if a != 0}
         g = got.get(j, {})
         for c in set(want) | set(g):
-            if abs(want.get(c, 0) - g.get(c, 0)) > Fraction(1, 10 ** 9):
+            # relative: a component present at 1e-10 is still a component (sums of positive terms: no cancellation in the code)
+            if abs(want.get(c, 0) - g.get(c, 0)) > Fraction(1, 10 ** 14) + max(want.get(c, 0), g.get(c, 0)) / 10 ** 6:
                 bad.append(f"mixing: fraction of {c!r} in well {j} of {name} is {float(g.get(c, 0))} {when}, ideal mixing gives {float(want.get(c, 0))}")
                 return
         if known[j] and want and abs(sum(g.values()) - 1) > Fraction(1, 10 ** 9):
@@ -870,7 +871,7 @@ def oracle_C01(case, obs):
                     want = rack.fractions(j)
                     g = got.get(j, {})
                     for c in set(want) | set(g):
-                        if abs(want.get(c, 0) - g.get(c, 0)) > Fraction(1, 10 ** 9):
+                        if abs(want.get(c, 0) - g.get(c, 0)) > Fraction(1, 10 ** 14) + max(want.get(c, 0), g.get(c, 0)) / 10 ** 6:
                             bad.append(f"composition: after call {i} ({k}) the replayed worklist gives well {j} of {L[int(kk)]['name']} {float(want.get(c, 0))} of {c!r}, the Labware reports {float(g.get(c, 0))}")
                             break
                     if bad:
@@ -945,6 +946,8 @@ def oracle_C03(case, obs):
             tr = triples_of(op)
             if tr and st["exc"] is None and any(v > mv for _, _, v in tr):
                 bad.append(f"oversized: call {i}: step above max_volume accepted without auto_split")
+            if tr and any(v > mv for _, _, v in tr) and st.get("accepted_with_split") and st["exc"] != "InvalidOperationError":
+                bad.append(f"oversized-class: call {i}: a transfer whose only fault is a step above max_volume (it is accepted when splitting is allowed) raised {st['exc']} instead of InvalidOperationError")
         if k in ("add", "remove"):
             apply_external(robot, case, obs, i, op)
             continue
